@@ -2,8 +2,9 @@
 # usage: seedrun.sh <patch> <tier> <check ids...>: applies the patch to /repo, runs the checks, reverts.
 P=$(realpath "$1"); TIER=$2; shift 2
 cd /verif
+BK=$(mktemp -d /tmp/evid.XXXXXX); cp -r /verif/evidence/. $BK/   # seeded runs must not leave their evidence behind
 git -C /repo apply "$P" || { echo "patch does not apply"; exit 2; }
 for c in "$@"; do
   echo "== $c ($TIER) with $(basename $(dirname $P))"; ./check $c $TIER 2>&1 | grep -E "VIOLATION|KNOWN|obligations" | head -4
 done
-git -C /repo checkout -- . ; git -C /repo status --short | head -3
+git -C /repo checkout -- . ; cp -r $BK/. /verif/evidence/; rm -rf $BK; git -C /repo status --short | head -3
